@@ -145,7 +145,9 @@ def oracle(d, rc):
     def mk(name, ids, what, sig=None, extra=None):
         ids = [i for i in ids if i in vec]
         # replay = the failing vector(s) alone first; the harness adds the initial state
-        c = dict(vectors=["%s\t%s" % (vec[i][0], vec[i][1]) for i in ids],
+        cfg = kv(orc.get("CFG", ""))
+        c = dict(policy=cfg.get("policy", ""), engine=cfg.get("engine", ""),
+                 vectors=["%s\t%s" % (vec[i][0], vec[i][1]) for i in ids],
                  commands=[show(unh(vec[i][1])) for i in ids][:8], dir=os.path.basename(d))
         if ids:
             # history up to the failing vector (bounded), for state dependent failures
@@ -287,7 +289,9 @@ def run(ctx):
         log("BUILD FAILED (harness nodesim):\n" + out[-3000:])
         raise SystemExit(2)
     vlib.regen_consts(GROUP, BIN)
-    proofs_ok, info = ctx.check_proofs(make_targets=["Valid/Proofs.vo", "Properties/C11.vo"],
+    # bounded build first (a diverging proof must not hold the shared build lock for long)
+    vlib.coq_make(["Valid/Proofs.vo", "Valid/BatchProofs.vo"], timeout=900)
+    proofs_ok, info = ctx.check_proofs(make_targets=["Valid/Proofs.vo", "Valid/BatchProofs.vo", "Properties/C11.vo"],
                                        gate_paths=["Valid", "Common", "Properties/C11"])
     mok, mout, _ = vlib.model_build(GROUP)
     if not mok:
@@ -308,14 +312,16 @@ def run(ctx):
                 with open(p, "w") as f:
                     for line in c[key]:
                         f.write(line + "\n")
-                jobs.append((nm, "-replay %s -port %d" % (p, pbase + 3 * len(jobs))))
+                jobs.append((nm, "-replay %s -port %d%s" % (p, pbase + 3 * len(jobs), ((" -policy " + c["policy"]) if c.get("policy") else "") + ((" -engine " + c["engine"]) if c.get("engine") else ""))))
     else:
         for i, p in enumerate(sorted(glob.glob(os.path.join(vlib.VERIF, "corpus", "C11", "*.tsv")))):
-            jobs.append(("corpus-" + os.path.basename(p)[:-4], "-replay %s -port %d" % (p, pbase + 3 * len(jobs))))
+            pol = " -policy wait_compact" if os.path.basename(p).startswith("wc-") else ""
+            jobs.append(("corpus-" + os.path.basename(p)[:-4], "-replay %s -port %d%s" % (p, pbase + 3 * len(jobs), pol)))
         nproc, n = (4, 4000) if quick else (12, 60000)
         for i in range(nproc):
             eng = "mem" if (quick or i % 3 != 2) else "pebble"
-            jobs.append(("fresh-%d" % i, "-seed %d -n %d -engine %s -port %d%s" % (ctx.seed * 1000 + i, n, eng, pbase + 3 * len(jobs), " -big" if i == 0 else "")))
+            pol = "wait_compact" if i % 2 == 1 else "local_deletion"
+            jobs.append(("fresh-%d" % i, "-seed %d -n %d -engine %s -policy %s -port %d%s" % (ctx.seed * 1000 + i, n, eng, pol, pbase + 3 * len(jobs), " -big" if i == 0 else "")))
     res = run_epochs(ctx, jobs, avoid)
 
     all_mism, all_fail, total = [], [], 0
@@ -383,6 +389,6 @@ def run(ctx):
         samples=samples[:6],
     ), assumptions=[
         "strconv.ParseFloat is not modelled: its verdict per argument is supplied by the harness (Section variable pf in the theorems)",
-        "one namespace with one partition and one replica on the live server; engine mem (thorough: also pebble); UseRedisV2=false on the live server, both encodings on the state machines",
+        "one namespace with one partition and one replica on the live server; engine mem (thorough: also pebble); expiration policies local_deletion and wait_compact (value header v1) on alternating runs; UseRedisV2=false on the live server, both encodings on the state machines",
         "a connection closed by the recover() of server/redis_api.go serverRedis counts as handled (the process stays up); such commands are listed in the notes",
     ])
